@@ -66,7 +66,11 @@ func (s SCTP) SerializeTo(b gopacket.SerializeBuffer, opts gopacket.SerializeOpt
 	binary.BigEndian.PutUint16(bytes[0:2], uint16(s.SrcPort))
 	binary.BigEndian.PutUint16(bytes[2:4], uint16(s.DstPort))
 	binary.BigEndian.PutUint32(bytes[4:8], s.VerificationTag)
+	// The checksum field must not keep stale buffer contents: it is zero while
+	// the CRC is computed, and carries s.Checksum when no CRC is requested.
+	binary.BigEndian.PutUint32(bytes[8:12], s.Checksum)
 	if opts.ComputeChecksums {
+		binary.BigEndian.PutUint32(bytes[8:12], 0)
 		// Note:  MakeTable(Castagnoli) actually only creates the table once, then
 		// passes back a singleton on every other call, so this shouldn't cause
 		// excessive memory allocation.
